@@ -79,7 +79,9 @@ fn node_slot(expression: &Expression) -> usize {
 #[cfg(kani)]
 pub fn evaluate_stub(evaluator: &Evaluator, expression: &Expression) -> LuaValue {
     let (kind, number) = match expression {
-        Expression::Binary(_) => unsafe { (NODE_ANSWER_KIND, NODE_ANSWER_NUMBER) },
+        Expression::Binary(_) | Expression::Unary(_) | Expression::If(_) => unsafe {
+            (NODE_ANSWER_KIND, NODE_ANSWER_NUMBER)
+        },
         _ => return crate::lua::evaluate_stub(evaluator, expression),
     };
     match kind {
@@ -94,7 +96,7 @@ pub fn evaluate_stub(evaluator: &Evaluator, expression: &Expression) -> LuaValue
 #[cfg(kani)]
 pub fn has_side_effects_stub(evaluator: &Evaluator, expression: &Expression) -> bool {
     match expression {
-        Expression::Binary(_) => unsafe { NODE_EFFECTS_ANSWER },
+        Expression::Binary(_) | Expression::Unary(_) | Expression::If(_) => unsafe { NODE_EFFECTS_ANSWER },
         _ => crate::lua::has_side_effects_stub(evaluator, expression),
     }
 }
@@ -272,6 +274,85 @@ fn scenario<S: Source>(
     core::mem::forget(replacement);
 }
 
+/// H-C01-compute-step on a unary node (`kind` 0) or an if-expression (`kind` 1): the node is
+/// folded to a literal only when the analyses say it has no side effects, and to the value the
+/// evaluator gives. `node_effects_answer` / `node_kind` are constants of the call site.
+#[inline(never)]
+fn node_scenario<S: Source>(s: &mut S, kind: u8, node_effects_answer: bool, node_kind: u8) {
+    // what executing the node really does
+    let value = any_v(s);
+    let node_effects = s.any_bool();
+    s.assume(node_effects_answer || !node_effects);
+    match (node_kind, value) {
+        (7, _) | (0, V::Nil) | (1, V::False) | (2, V::True) | (3, V::Number(_)) => {}
+        _ => s.assume(false),
+    }
+    #[cfg(kani)]
+    unsafe {
+        NODE_ANSWER_KIND = node_kind;
+        NODE_ANSWER_NUMBER = match value {
+            V::Number(n) => n,
+            _ => 0.0,
+        };
+        NODE_EFFECTS_ANSWER = node_effects_answer;
+        FOLDED_KIND = 7;
+    }
+    #[cfg(not(kani))]
+    {
+        // natively the answers come from the real analyses: replay only what a real tree realises
+        let _ = (node_effects, node_kind);
+        s.assume(false);
+    }
+    let leaf = |name: &'static str| Expression::identifier(name);
+    let node: Expression = if kind == 0 {
+        UnaryExpression::new(UnaryOperator::Not, leaf("a")).into()
+    } else {
+        IfExpression::new(leaf("a"), leaf("b"), leaf("c")).into()
+    };
+    let replacement = hooks::compute_expression_replace_with(&node);
+    note!(s, "compute_expression on {:?} -> {:?}", node, replacement);
+    #[cfg(kani)]
+    {
+        let folded = match &replacement {
+            None => None,
+            Some(Expression::Identifier(identifier)) if identifier.get_name().len() == 6 => {
+                Some(unsafe { v_from(FOLDED_KIND, FOLDED_NUMBER) })
+            }
+            Some(_) => Some(V::Function),
+        };
+        observe!(folded.is_some(), "the node is folded");
+        if let Some(folded) = folded {
+            claim!(s, !node_effects, "a unary or if-expression is folded to a literal only when evaluating it calls nothing");
+            claim!(s, folded == value || matches!((folded, value), (V::Number(a), V::Number(b)) if a.to_bits() == b.to_bits() || (a.is_nan() && b.is_nan())),
+                "a unary or if-expression is folded to the value the evaluator computed for it");
+        }
+    }
+    core::mem::forget(node);
+    core::mem::forget(replacement);
+}
+
+macro_rules! node_scenarios {
+    ($s:expr, $index:expr; $( ($kind:expr, $ne:expr, $nk:expr) ),* $(,)?) => {{
+        let mut counter: u16 = 0;
+        $(
+            if $index == counter {
+                node_scenario($s, $kind, $ne, $nk);
+            }
+            counter += 1;
+        )*
+        let _ = counter;
+    }};
+}
+
+pub fn compute_unary<S: Source>(s: &mut S) {
+    let index = s.any_u16();
+    node_scenarios!(s, index; (0, false, 7), (0, false, 2), (0, false, 1), (0, true, 7), (0, true, 2));
+}
+pub fn compute_if<S: Source>(s: &mut S) {
+    let index = s.any_u16();
+    node_scenarios!(s, index; (1, false, 7), (1, false, 3), (1, false, 0), (1, true, 7), (1, true, 3));
+}
+
 macro_rules! compute_proof {
     ($name:ident, $body:ident) => {
         #[cfg(kani)]
@@ -385,3 +466,34 @@ pub fn compute_and_or_g11<S: Source>(s: &mut S) {
     let _count: u16 = include!("c01_scenarios_g11.in");
 }
 compute_proof!(c01_compute_and_or_g11, compute_and_or_g11);
+
+/// H-C01-compute-step, scenario group 12 (see `c01_scenarios_g12.in`).
+pub fn compute_and_or_g12<S: Source>(s: &mut S) {
+    let index = s.any_u16();
+    let _count: u16 = include!("c01_scenarios_g12.in");
+}
+compute_proof!(c01_compute_and_or_g12, compute_and_or_g12);
+
+/// H-C01-compute-step, scenario group 13 (see `c01_scenarios_g13.in`).
+pub fn compute_and_or_g13<S: Source>(s: &mut S) {
+    let index = s.any_u16();
+    let _count: u16 = include!("c01_scenarios_g13.in");
+}
+compute_proof!(c01_compute_and_or_g13, compute_and_or_g13);
+
+/// H-C01-compute-step, scenario group 14 (see `c01_scenarios_g14.in`).
+pub fn compute_and_or_g14<S: Source>(s: &mut S) {
+    let index = s.any_u16();
+    let _count: u16 = include!("c01_scenarios_g14.in");
+}
+compute_proof!(c01_compute_and_or_g14, compute_and_or_g14);
+
+/// H-C01-compute-step, scenario group 15 (see `c01_scenarios_g15.in`).
+pub fn compute_and_or_g15<S: Source>(s: &mut S) {
+    let index = s.any_u16();
+    let _count: u16 = include!("c01_scenarios_g15.in");
+}
+compute_proof!(c01_compute_and_or_g15, compute_and_or_g15);
+
+compute_proof!(c01_compute_unary, compute_unary);
+compute_proof!(c01_compute_if, compute_if);
